@@ -811,6 +811,75 @@ where
                 }
                 ev.r = r;
             }
+            "par_iter" => {
+                // n: 0 par_iter, 1 par_keys, 2 par_values, 3 par_iter_mut, 4 par_values_mut; j = thread-pool size
+                use rayon::prelude::*;
+                let m = self.tabs[t - 1].as_mut().unwrap();
+                let pool = rayon::ThreadPoolBuilder::new().num_threads(ev.j.max(1) as usize).build().unwrap();
+                ev.y = match ev.n {
+                    0 => pool.install(|| m.par_iter().map(|(k, v)| kv4(k, v)).collect::<Vec<_>>()),
+                    1 => pool.install(|| m.par_keys().map(|k| vec![k.class() as i64, k.id() as i64, -1, -1]).collect::<Vec<_>>()),
+                    2 => pool.install(|| m.par_values().map(|v| vec![-1, -1, v.v() as i64, v.id() as i64]).collect::<Vec<_>>()),
+                    3 => pool.install(|| m.par_iter_mut().map(|(k, v)| kv4(k, &*v)).collect::<Vec<_>>()),
+                    _ => pool.install(|| m.par_values_mut().map(|v| vec![-1, -1, v.v() as i64, v.id() as i64]).collect::<Vec<_>>()),
+                };
+            }
+            "par_drain" | "into_par_iter" => {
+                // n: 0 = consume everything, 1 = short-circuiting consumer (find_any class k); j = thread-pool size
+                use rayon::prelude::*;
+                let pool = rayon::ThreadPoolBuilder::new().num_threads(ev.j.max(1) as usize).build().unwrap();
+                let into = ev.op == "into_par_iter";
+                let mut owned = if into { self.tabs[t - 1].take() } else { None };
+                let pl = owned.as_ref().map(|m| m.hasher().pl).unwrap_or(0);
+                let mut kept: Vec<(K, V)> = vec![];
+                if ev.n == 0 {
+                    kept = if into {
+                        let m = owned.take().unwrap();
+                        pool.install(|| m.into_par_iter().collect::<Vec<(K, V)>>())
+                    } else {
+                        let m = self.tabs[t - 1].as_mut().unwrap();
+                        pool.install(|| m.par_drain().collect::<Vec<(K, V)>>())
+                    };
+                    ev.y = kept.iter().map(|(k, v)| kv4(k, v)).collect();
+                    ev.r = vec![kept.len() as i64];
+                } else {
+                    let found = if into {
+                        let m = owned.take().unwrap();
+                        pool.install(|| m.into_par_iter().find_any(|(kk, _)| kk.class() == k))
+                    } else {
+                        let m = self.tabs[t - 1].as_mut().unwrap();
+                        pool.install(|| m.par_drain().find_any(|(kk, _)| kk.class() == k))
+                    };
+                    ev.r = vec![found.as_ref().map_or(-1, |(kk, _)| kk.id() as i64)];
+                    ev.y = found.iter().map(|(kk, v)| kv4(kk, v)).collect();
+                    kept.extend(found);
+                }
+                self.keep(kept);
+                if into {
+                    self.tabs[t - 1] = Some(HashMap::with_hasher_in(PlanBH { pl }, CheckingAlloc));
+                }
+            }
+            "par_extend" => {
+                use rayon::prelude::*;
+                let pool = rayon::ThreadPoolBuilder::new().num_threads(ev.j.max(1) as usize).build().unwrap();
+                let mut items = Vec::new();
+                let mut y = Vec::new();
+                for p in ev.ks.chunks(2) {
+                    let key = K::make(p[0] as u32);
+                    let val = V::make(p[1] as u32);
+                    y.push(kv4(&key, &val));
+                    items.push((key, val));
+                }
+                ev.y = y;
+                let m = self.tabs[t - 1].as_mut().unwrap();
+                pool.install(|| m.par_extend(items));
+            }
+            "par_eq" => {
+                let a = self.tabs[t - 1].as_ref().unwrap();
+                let b = self.tabs[ev.u - 1].as_ref().unwrap();
+                let pool = rayon::ThreadPoolBuilder::new().num_threads(ev.j.max(1) as usize).build().unwrap();
+                ev.r = vec![pool.install(|| a.par_eq(b)) as i64, pool.install(|| b.par_eq(a)) as i64];
+            }
             other => panic!("unknown map op {}", other),
         }
     }
